@@ -206,6 +206,19 @@ pub fn check(case: &Case, st: &mut Stats) -> CheckResult {
   Ok(())
 }
 
+fn stage_opts() -> SrcOpts {
+  let mut opts = SrcOpts::all_langs();
+  opts.synth_weight = 4;
+  opts
+}
+
+/// the same stage, driven by bytes (coverage-guided tier)
+pub fn erased() -> crate::fuzz::Erased {
+  let corpus: &'static Corpus = Box::leak(Box::new(Corpus::load()));
+  let opts: &'static SrcOpts = Box::leak(Box::new(stage_opts()));
+  crate::fuzz::Erased::generic("C02", "holes", move || strategy(opts), move |c, st| interpret(corpus, opts, c, st), check)
+}
+
 pub fn run(cfg: &RunCfg) -> i32 {
   let mut report = Report::new(
     cfg,
@@ -218,11 +231,11 @@ pub fn run(cfg: &RunCfg) -> i32 {
   }
   let corpus = Corpus::load();
   crate::replay_known::<Case>(&mut report, &known, check);
-  let mut opts = SrcOpts::all_langs();
-  opts.synth_weight = 4;
+  let opts = stage_opts();
   let total = cfg.budget(60_000, 1_500_000);
   let o = drive(cfg, "holes", total, &known, || strategy(&opts), |c, st| interpret(&corpus, &opts, c, st), check);
   report.absorb("holes", o);
   report.floor("nontrivial", 0.25, "evaluations");
+  crate::fuzz::stage(cfg, &mut report, &known, 40000);
   report.finish()
 }
